@@ -558,6 +558,8 @@ impl Cx {
                     deliveries: Mutex::new(Vec::new()),
                     ended: Mutex::new(None),
                     reading: AtomicBool::new(true),
+                    paused: AtomicBool::new(false),
+                    resume: tokio::sync::Notify::new(),
                 });
                 let st2 = Arc::clone(&state);
                 let cx = self.clone();
@@ -565,6 +567,10 @@ impl Cx {
                 let reader = tokio::spawn(async move {
                     let mut resp_no = 0u32;
                     loop {
+                        // a client that stopped reading: the response stream is not polled any more
+                        while st2.paused.load(Ordering::SeqCst) {
+                            st2.resume.notified().await;
+                        }
                         let r = AssertUnwindSafe(streaming.message()).catch_unwind().await;
                         match r {
                             Ok(Ok(Some(m))) => {
@@ -633,6 +639,9 @@ pub struct StreamState {
     /// None while open; Some(0) clean end; Some(code) error status; Some(-1) panic.
     pub ended: Mutex<Option<i32>>,
     pub reading: AtomicBool,
+    /// The client stopped reading responses (takes effect after the response in flight).
+    pub paused: AtomicBool,
+    pub resume: tokio::sync::Notify,
 }
 
 pub struct StreamHandle {
@@ -734,8 +743,22 @@ impl StreamHandle {
         self.reader.as_ref().map(|r| r.abort_handle())
     }
 
+    /// The client stops reading responses (the handler then stalls at its next response).
+    pub fn pause_reading(&self) {
+        self.state.paused.store(true, Ordering::SeqCst);
+    }
+
+    pub fn resume_reading(&self) {
+        self.state.paused.store(false, Ordering::SeqCst);
+        self.state.resume.notify_one();
+    }
+
+    pub fn is_paused(&self) -> bool {
+        self.state.paused.load(Ordering::SeqCst)
+    }
+
     pub fn is_reading(&self) -> bool {
-        self.state.reading.load(Ordering::SeqCst) && self.ended().is_none() && self.reader.as_ref().map(|r| !r.is_finished()).unwrap_or(false)
+        !self.is_paused() && self.state.reading.load(Ordering::SeqCst) && self.ended().is_none() && self.reader.as_ref().map(|r| !r.is_finished()).unwrap_or(false)
     }
 }
 
